@@ -42,11 +42,15 @@ SCEN = {
     "portability": ("a.c", "void f(void)\n{\n  int *p = (int*)0;\n  long l = (long)p; int i = p;\n}\n", {}, [], ["--enable=portability"]),
     "information": ("a.c", "int f(int x)\n{\n  return x;\n}\n", {}, ["--suppress=zerodiv:a.c"], ["--suppress=zerodiv:a.c", "--enable=information"]),
     "suppressions": ("a.c", "int f(int x)\n{\n  return x / 0;\n}\n", {}, [], ["--suppress=zerodiv"]),
+    "inlineSuppr": ("a.c", "int f(int x)\n{\n  int a[2];\n  a[2] = x; // cppcheck-suppress arrayIndexOutOfBounds\n  return a[0];\n}\n", {},
+                    ["--enable=information"], ["--enable=information", "--inline-suppr"]),
+    "inlineSupprMisspelt": ("a.c", "int f(int x)\n{\n  int a[2];\n  a[2] = x; // cppcheck-suppress arrayIndexOutOfBound\n  return a[0];\n}\n", {},
+                            ["--enable=information"], ["--enable=information", "--inline-suppr"]),
     "maxConfigs": ("a.c", "#ifdef A\nint f(int x) { return x / 0; }\n#endif\n#ifdef B\nint g(int x) { int a[2]; a[2] = x; return 0; }\n#endif\nint h(void) { return 0; }\n", {}, [], ["--max-configs=1"]),
     "checkLevel": ("a.c", "int f(int x)\n{\n  return x / 0;\n}\n", {}, [], ["--check-level=exhaustive"]),
     "force": ("a.c", "".join("#ifdef C%d\nint f%d(int x) { return x / 0; }\n#endif\n" % (i, i) for i in range(14)) + "int h(void) { return 0; }\n", {}, [], ["--force"]),
 }
-FIELD_OF = {"style": "style", "warning": "warning", "performance": "performance", "portability": "portability", "information": "information"}
+FIELD_OF = {"inlineSuppr": "suppressions", "inlineSupprMisspelt": "suppressions", "style": "style", "warning": "warning", "performance": "performance", "portability": "portability", "information": "information"}
 
 
 def check(run, replay):
@@ -67,18 +71,26 @@ def check(run, replay):
                          "non-trivial = the option really changes the fresh findings of the file")
 
     vlib.ensure_repo_build()
+    model_ok = True
     try:
         kf, le = keyfields.generate(vlib.REPO, os.path.join(vlib.COQ, "theories", "Cache", "Gen_KeyFields.v"))
         run.extra["key_fields"] = kf
     except keyfields.TranslateError as e:
         run.violation("translate:keyfields", "translator cannot read the key composition: %s" % e,
                       {"broken": "translator", "detail": str(e)}, found_input=False)
-        return
-    ok = run.prove(extra_targets=["theories/Cache/Run.vo"])
-    if not ok:
-        run.violation("proof:" + PID, "Properties_C19.vo does not build: " + str(run.proof_error())[:300],
-                      {"broken": "proof", "detail": run.proof_error()}, found_input=False)
-    if not os.path.exists(os.path.join(vlib.COQ, "theories/Cache/Run.vo")):
+        model_ok = False
+    if model_ok:
+        ok = run.prove(extra_targets=["theories/Cache/Run.vo"])
+        if not ok:
+            run.violation("proof:" + PID, "Properties_C19.vo does not build: " + str(run.proof_error())[:300],
+                          {"broken": "proof", "detail": run.proof_error()}, found_input=False)
+    if not model_ok or not os.path.exists(os.path.join(vlib.COQ, "theories/Cache/Run.vo")):
+        # search step without the model: the option-change histories are plain cached-vs-fresh comparisons
+        run.extra["model_tie"] = "off"
+        if not run.obligations:
+            run.obligations = vlib.theorems_of(os.path.join(vlib.COQ, "theories", "Properties_%s.v" % PID))
+            run.checker_cmd = "not run: the translator failed, the regenerated part of the model is not the code"
+        option_histories(run, None, quick)
         return
     model = vlib.build_model(PID)
     vh = vlib.build_harness("C18")
@@ -149,14 +161,18 @@ def check(run, replay):
                 run.violation("tie:toolhash:%d" % bad, "std::hash(model toolinfo) differs from CppCheck::calculateHash for an option set",
                               {"broken": "correspondence", "options": o, "model_hash": vlib.show(m), "impl_hash": vlib.show(r[0])}, found_input=False)
 
-    # ---- X2: option-change histories on the real binary
+    option_histories(run, missing, quick)
+
+
+def option_histories(run, missing, quick):
+    """X2: option-change histories on the real binary (missing None: no model available)"""
     shown = {}
     for member, (fname, src, extra, A, B) in SCEN.items():
         field = FIELD_OF.get(member, member)
         if quick and member in ("performance", "checkLevel", "force", "portability"):
             continue
         for jobs in ((1,) if quick else (1, 2)):
-            for first, second in (((A, B),) if quick and field not in missing else ((A, B), (B, A))):
+            for first, second in (((A, B),) if quick and missing is not None and field not in missing and not member.startswith("inlineSuppr") else ((A, B), (B, A))):
                 sc = C.Scratch("c19")
                 try:
                     sc.write(fname, src)
@@ -171,12 +187,12 @@ def check(run, replay):
                     depends = f1 != f2
                     hit = bool(C.hits_of(dbg))
                     run.count("option-history", None, nontrivial=(member, jobs, tuple(first)) if depends else None,
-                              bucket="%s,%s,%s" % ("in-key" if member not in missing else "missing", "hit" if hit else "miss", "agree" if c2 == f2 else "DIFFER"))
+                              bucket="%s,%s,%s" % ("in-key" if (missing is None or member not in missing) else "missing", "hit" if hit else "miss", "agree" if c2 == f2 else "DIFFER"))
                     if c1 != f1:
                         run.violation("optchange-first-run:" + member, "first run with an empty build dir differs from fresh for options %s" % first,
                                       {"file": fname, "source": src, "options": first, "cached": c1, "fresh": f1})
                     if c2 != f2:
-                        key = ("toolinfo-omits-" + field) if field in missing else "optchange:" + member
+                        key = ("toolinfo-omits-" + field) if (missing is not None and field in missing) else "optchange:" + member
                         shown.setdefault(member, (first, second))
                         run.violation(key, "run 1 with %s, run 2 with %s sharing a build dir: run 2 reports %s, a run without build dir %s" % (
                             first, second, c2[:3], f2[:3]),
@@ -185,7 +201,7 @@ def check(run, replay):
                 finally:
                     sc.close()
     run.extra["options_demonstrated_stale"] = sorted(shown)
-    run.extra["missing_not_demonstrated"] = sorted(m for m in missing if m not in shown)
+    run.extra["missing_not_demonstrated"] = sorted(m for m in (missing or []) if m not in shown)
     run.samples.append({"stream": "option-history", "case": "a.c: return 100/(int)(sizeof(long)-8); run1 --platform=unix64, run2 --platform=win64, one build dir",
                         "model": "platform is not in key_fields => same key (C19_missing_option_invisible) => cache hit, zerodiv repeated"})
 
